@@ -450,6 +450,33 @@ def run_case(case, work, rec):
             continue
         judge(rec, call(fsel, lv, bsel), data_lv, comps, boxes, True, True, key + ("reread",), False,
               descr + " read again after the caller overwrote the first result")
+    # (7) the caller is a daemonic process (a user function mapped over a multiprocessing.Pool reads boxes itself).
+    # A real pool cannot be started there (multiprocessing refuses: the unchanged reader raises AssertionError); under
+    # the M1 shim the read goes through. Either way the statement forbids *other* data: a refusal is counted, a value
+    # is judged like any other.
+    import multiprocessing
+    cfg = multiprocessing.current_process()._config
+    was = cfg.get("daemon")
+    cfg["daemon"] = True
+    try:
+        for fsel, lv, bsel, val, data_lv, comps, boxes, descr, key in list(reread)[:10]:
+            nb = len(data_lv)
+            if nb < 2:
+                continue
+            for bd, bs, bx in ((f"list:[{nb - 1}, 0]", [nb - 1, 0], [nb - 1, 0]), (f"slice:1:{nb}", slice(1, nb), list(range(1, nb))),
+                               (f"mask:last", [False] * (nb - 1) + [True], [nb - 1])):
+                out = call(fsel, lv, bs)
+                if out[0] == "exc":
+                    rec.count("reads_from_a_daemonic_caller_refused:" + out[1])
+                    continue
+                rec.count("reads_from_a_daemonic_caller")
+                judge(rec, out, data_lv, comps, bx, True, True, key + ("daemonic", bd), nontriv(comps, bx, lv),
+                      descr.rsplit("[", 1)[0] + f"[{bd}] read by a daemonic process")
+    finally:
+        if was is None:
+            cfg.pop("daemon", None)
+        else:
+            cfg["daemon"] = was
     # monitors: contracts evaluated in this case, pool log
     for k, v in contracts.COUNTS.items():
         rec.count("calls:" + k, v - n0.get(k, 0))
